@@ -34,8 +34,10 @@ ASSUMPTIONS = [
 MANIFEST_ENTRY = {
     'technique': 'Hypothesis-generated planted data sets (known threshold) '
                  'written through the real result-file formats and analysed '
-                 'by the real pipeline; oracle = planted parameter within '
-                 'stated tolerance + metamorphic file/row permutation',
+                 'by the real pipeline (points split into several runs, results '
+                 'supplied as a directory or as a list of files, directories '
+                 'and zip archives); oracle = planted parameter within '
+                 'stated tolerance + metamorphic file/row/path permutation',
     'level_text': 'The whole analysis pipeline (file discovery, aggregation, '
                   'finite-size-scaling fit, seeded bootstrap) is run on data '
                   'lying exactly on the documented ansatz with a known '
